@@ -5,7 +5,7 @@
    evaluated on the implementation's own observations. *)
 From Coq Require Import List NArith ZArith Bool String Ascii Strings.Byte.
 From FwdLib Require Import Bytes.
-From G03 Require Import Tables Tunnel Abstract.
+From G03 Require Import Tables Tunnel Abstract ReplyReader.
 Import ListNotations.
 Open Scope N_scope.
 
@@ -51,7 +51,7 @@ Record obs := {
   o_closed_up : bool; o_closed_down : bool; o_timeout : bool
 }.
 Record ccase := {
-  cc_mode : N; cc_wellformed : bool; cc_grace : Z;
+  cc_mode : N; cc_wellformed : bool; cc_grace : Z; cc_fr : framing;
   cc_early : list N; cc_skip : list N; cc_kept : list N;
   cc_trace : list label; cc_obs : obs
 }.
@@ -89,8 +89,22 @@ Definition final_ok (mode : N) (grace : Z) (s : state) (o : obs) : bool :=
   && implb (s_forced s) (grace <=? o_force_gap o)%Z
   && ((mode =? 5) || str_eqb (o_reply o) connect_ok_response).
 
+(* What the upstream reply reader takes beyond the reply head, as the model of
+   dialvia (ReplyReader.v) predicts it from the shapes in Tables.v: only an HTTP
+   upstream (mode 1) has a body to close; a chunked body makes the amount
+   unpredictable (the tunnel bytes are parsed as chunk framing). *)
+Definition predicted_skip (mode : N) (fr : framing) (avail : N) : option N :=
+  if mode =? 1
+  then (if reply_reader_bytewise then
+          if fr_chunked fr && negb connect_2xx_body_ignored && connect_2xx_body_closed then None
+          else Some (close_consumes connect_2xx_body_ignored connect_2xx_body_closed fr avail)
+        else None)
+  else Some 0.
+Definition skip_ok (mode : N) (fr : framing) (avail skip : N) : bool :=
+  match predicted_skip mode fr avail with Some n => skip =? n | None => true end.
+
 Definition cmodel_ok (c : ccase) : bool :=
-  cc_wellformed c &&
+  cc_wellformed c && skip_ok (cc_mode c) (cc_fr c) (len (o_sent (o_tc (cc_obs c)))) (len (cc_skip c)) &&
   match run (tables_shape (cc_grace c)) (init (cc_early c) (cc_skip c) (cc_kept c)) (cc_trace c) with
   | Some s => final_ok (cc_mode c) (cc_grace c) s (cc_obs c)
   | None => false
@@ -107,7 +121,7 @@ Record aobs := {
   a_closed_up : bool; a_closed_down : bool; a_timeout : bool
 }.
 Record acase := {
-  ac_mode : N; ac_wellformed : bool; ac_grace : Z;
+  ac_mode : N; ac_wellformed : bool; ac_grace : Z; ac_fr : framing;
   ac_early : N; ac_skip : N; ac_kept : N;
   ac_trace : list alabel; ac_obs : aobs
 }.
@@ -139,7 +153,7 @@ Definition afinal_ok (mode : N) (grace : Z) (s : astate) (o : aobs) : bool :=
   && ((mode =? 5) || str_eqb (a_reply o) connect_ok_response).
 
 Definition amodel_ok (c : acase) : bool :=
-  ac_wellformed c &&
+  ac_wellformed c && skip_ok (ac_mode c) (ac_fr c) (a_sent (a_tc (ac_obs c))) (ac_skip c) &&
   match arun (tables_shape (ac_grace c)) (ainit (ac_early c) (ac_skip c) (ac_kept c)) (ac_trace c) with
   | Some s => afinal_ok (ac_mode c) (ac_grace c) s (ac_obs c)
   | None => false
